@@ -158,7 +158,7 @@ Section Combinators.
     | [] => (MVal VNil, st)
     | (c, b) :: r =>
         match ev c st with
-        | (MVal v, st1) => if is_nil v then m_cond r st1 else m_seq never b VNil st1
+        | (MVal v, st1) => if is_nil v then m_cond r st1 else m_seq never b v st1   (* a clause without forms returns the test value (0170ebc) *)
         | (o, st1) => (o, st1)
         end
     end.
